@@ -251,9 +251,18 @@ def _r2(ctx):
             par = getattr(c, "_parent", None)
             if isinstance(par, ast.keyword):
                 tgt = par.arg
-            got[tgt] = (U(c.args[1]), U(c.args[0]))
+            # the line the measurement is read from: <input>[<block start> + k] inside `for <block start> in range(..)`
+            lp = C.enclosing_loop(c)
+            lv = U(lp.target) if isinstance(lp, ast.For) and isinstance(lp.target, ast.Name) else None
+            offs = []
+            for sub in ast.walk(C.flow_of(h).subst(c.args[0])):
+                if isinstance(sub, ast.Subscript) and U(sub.value) == h.params()[0] and lv is not None:
+                    a = C.affine(sub.slice)
+                    if a is not None and a.get(lv) == 1 and set(a) <= {lv, 1}:
+                        offs.append("i + %d" % a.get(1, 0) if a.get(1, 0) else "i")
+            got[tgt] = (U(c.args[1]), U(c.args[0]), offs)
         for fld, (mode_lit, idx) in pairs.items():
-            ok = fld in got and got[fld][0] == mode_lit and (idx is None or "[%s]" % idx in got[fld][1])
+            ok = fld in got and got[fld][0] == mode_lit and (idx is None or got[fld][2] == [idx])
             ctx.judge(ok, fld in got, "R2", "%s: %s is validated in mode %s%s" % (h.name, fld, mode_lit, " from line %s" % idx if idx else ""),
                       h.where(), "%s validates %s as %s" % (h.name, fld, got.get(fld)), q, "%s mode" % fld)
 
@@ -270,9 +279,17 @@ def _r3(ctx):
                 "(mnemonic-operands without the -TP/-LT suffix)", f.qname, "merge key")
         return
     k = U(key[0][1]["M_k"])
-    reuse = [n for n in ast.walk(f.node) if isinstance(n, ast.If) and U(n.test) == "%s in db_entries" % k
-             and any(U(s) == "entry = db_entries[%s]" % k for s in n.body)]
-    store = pm.find("db_entries[%s] = entry" % k, f.node)
+    store = pm.find("db_entries[%s] = M_e" % k, f.node)
+    ev = U(store[0][1]["M_e"]) if store else "entry"
+    reuse = []
+    for n in ast.walk(f.node):
+        if isinstance(n, ast.Assign) and len(n.targets) == 1 and U(n.targets[0]) == ev:
+            # `e = db[k]` where `k in db` holds, or `e = db[k] if k in db else <new entry>`
+            if U(n.value) == "db_entries[%s]" % k and C.holds_at(n, "%s in db_entries" % k):
+                reuse.append(n)
+            elif isinstance(n.value, ast.IfExp) and C.CT(U(n.value.test)) == C.CT("%s in db_entries" % k) \
+                    and U(n.value.body) == "db_entries[%s]" % k:
+                reuse.append(n)
     looked = [n for n in ast.walk(f.node) if isinstance(n, ast.If) and U(n.test) == "%s in db_entries" % k]
     other_idiom = any(isinstance(n, ast.Call) and isinstance(n.func, ast.Attribute) and n.func.attr in ("get", "setdefault")
                       and U(n.func.value) == "db_entries" for n in ast.walk(f.node))
@@ -281,8 +298,14 @@ def _r3(ctx):
               "the second line of a form does not update the entry created by the first (lookup=%s, store=%s)" % (bool(reuse), bool(store)),
               f.qname, "merge reuse")
     if reuse:
-        new = [c for c in ast.walk(reuse[0]) if isinstance(c, ast.Call) and pm.call_name(c) == "InstructionForm"]
-        ctx.check(bool(new) and any(C.in_subtree(c, s) for c in new for s in reuse[0].orelse), "R3",
+        # a new entry is built only where the key is known to be absent
+        new = [c for c in ast.walk(f.node) if isinstance(c, ast.Call) and pm.call_name(c) == "InstructionForm"]
+        def absent(c):
+            if (C.CT("%s in db_entries" % k), False) in C.norm_facts(c):
+                return True
+            p_ = C.parent(c)
+            return isinstance(p_, ast.IfExp) and p_.orelse is c and C.CT(U(p_.test)) == C.CT("%s in db_entries" % k)
+        ctx.check(bool(new) and all(absent(c) for c in new), "R3",
                   "a new entry is created only when the key is new", f.where(), "a new entry is created although the key exists",
                   f.qname, "merge new")
     tp = [n for n in ast.walk(f.node) if isinstance(n, ast.If) and U(n.test) == "'TP' in instruction"]
@@ -306,11 +329,30 @@ def _r4(ctx):
     step = C.const_num(C.arg_of(loop.iter, 2)) if C.arg_of(loop.iter, 2) is not None else 1
     ctx.check(step == 4 and C.const_num(loop.iter.args[0]) == 0, "R4", "blocks start every 4 lines from 0", f.where(loop),
               "block loop is %s" % U(loop.iter), f.qname, "block stride")
+    flow = C.flow_of(f)
     subs = [n for n in ast.walk(loop) if isinstance(n, ast.Subscript) and U(n.value) == data]
     ctx.floor("R4", "indexings of the input lines", len(subs), 4)
+    LEN = "len(%s)" % data
+
+    def bound_fact(e):
+        """(K, op) when the comparison `e` says  i + K <op> len(data)  (locals substituted, both sides affine), else None"""
+        if not (isinstance(e, ast.Compare) and len(e.ops) == 1 and isinstance(e.ops[0], (ast.Lt, ast.LtE, ast.Gt, ast.GtE))):
+            return None
+        la, ra = C.affine(flow.subst(e.left)), C.affine(flow.subst(e.comparators[0]))
+        d = {k_: la.get(k_, 0) - ra.get(k_, 0) for k_ in set(la) | set(ra)}
+        d = {k_: v for k_, v in d.items() if v != 0 or k_ == 1}
+        op = {ast.Lt: "<", ast.LtE: "<=", ast.Gt: ">", ast.GtE: ">="}[type(e.ops[0])]
+        if set(d) - {i, LEN, 1}:
+            return None
+        if d.get(i) == 1 and d.get(LEN) == -1:
+            return d.get(1, 0), op
+        if d.get(i) == -1 and d.get(LEN) == 1:
+            return -d.get(1, 0), {"<": ">", "<=": ">=", ">": "<", ">=": "<="}[op]
+        return None
+
     malformed = [n for n in loop.body if isinstance(n, ast.If) and any(isinstance(x, ast.Break) for x in n.body)]
     for sub in subs:
-        aff = C.affine(sub.slice) if not isinstance(sub.slice, ast.Slice) else None
+        aff = C.affine(flow.subst(sub.slice)) if not isinstance(sub.slice, ast.Slice) else None
         if aff is None or set(aff) - {i, 1} or aff.get(i) != 1:
             ctx.node_bad("R4", f, sub, "index %s is not of the form i + k" % U(sub.slice))
             continue
@@ -320,13 +362,12 @@ def _r4(ctx):
             continue
         # guaranteed: i <= len - 1. need i + k <= len - 1: look for a guard
         facts = [(e, p) for e, p in C.facts_at(sub, stop=loop)]
-        texts = [(U(e), p) for e, p in facts]
         guarded = False
-        for t, p in texts:
+        for e_, p in facts:
             # i + k < len(data) known true, or i + K > len(data) known false with K > k
-            mm = re.fullmatch(r"%s \+ (\d+) (<|<=|>|>=) len\(%s\)" % (re.escape(i), re.escape(data)), t)
-            if mm:
-                K, op = int(mm.group(1)), mm.group(2)
+            bf = bound_fact(e_)
+            if bf is not None:
+                K, op = bf
                 if p and op == "<" and K >= k:
                     guarded = True
                 if p and op == "<=" and K - 1 >= k:
@@ -400,8 +441,24 @@ def _r5(ctx):
                       g.qname, "form stored on every path")
     src = {"ibench": "_get_ibench_output", "asmbench": "_get_asmbench_output"}
     for kind, fn in src.items():
-        hit = [n for n in ast.walk(f.node) if isinstance(n, ast.If) and U(n.test) == "bench_type == '%s'" % kind
-               and any(U(s).startswith("db_entries = %s(" % fn) for s in n.body)]
+        # the parser for this kind runs exactly where the facts say bench_type is this kind (if / elif / else after the
+        # membership guard / conditional expression)
+        bt = f.params()[1]
+        hit = []
+        for c in C.calls_to(f.node, fn):
+            nf = C.norm_fact_nodes(c)
+            eqs = {x.comparators[0].value: pol for x, pol in nf if isinstance(x, ast.Compare) and isinstance(x.ops[0], ast.Eq)
+                   and U(x.left) == bt and isinstance(x.comparators[0], ast.Constant)}
+            eqs.update({x.left.value: pol for x, pol in nf if isinstance(x, ast.Compare) and isinstance(x.ops[0], ast.Eq)
+                        and U(x.comparators[0]) == bt and isinstance(x.left, ast.Constant)})
+            domain = None
+            for x, pol in nf:
+                if pol and isinstance(x, ast.Compare) and isinstance(x.ops[0], ast.In) and U(x.left) == bt:
+                    d = C.flow_of(f).subst(x.comparators[0])
+                    if isinstance(d, (ast.List, ast.Tuple, ast.Set)) and all(isinstance(e_, ast.Constant) for e_ in d.elts):
+                        domain = {e_.value for e_ in d.elts}
+            if eqs.get(kind) is True or (domain is not None and kind in domain and all(eqs.get(o) is False for o in domain - {kind})):
+                hit.append(c)
         ctx.check(bool(hit), "R5", "%s files are parsed by %s" % (kind, fn), f.where(), "dispatch for %s changed" % kind, f.qname, "dispatch " + kind)
     dumps = C.calls_to(f.node, "dump")
     ctx.check(len(dumps) >= 1 and all(U(c.func.value) == "mm" for c in dumps), "R5", "the model that received the entries is dumped",
@@ -418,11 +475,17 @@ def _r5(ctx):
               "set_instruction copies only %s" % sorted(sets), si.qname, "fields copied")
     se = ctx.func("MachineModel.set_instruction_entry")
     c = C.calls_to(se.node, "set_instruction")
-    ok = bool(c) and [U(a) for a in c[0].args] == ["entry.mnemonic", "entry.operands", "entry.latency", "entry.port_pressure",
-                                                    "entry.throughput", "entry.uops"] and si.params()[1:] == [
-        "mnemonic", "operands", "latency", "port_pressure", "throughput", "uops"]
+    # every parameter of set_instruction receives the entry's attribute of the same name (positional or keyword, through locals)
+    bound = {}
+    if c:
+        ev = se.params()[1]
+        sflow = C.flow_of(se)
+        for prm, a in list(zip(si.params()[1:], c[0].args)) + [(k_.arg, k_.value) for k_ in c[0].keywords if k_.arg]:
+            bound[prm] = U(sflow.subst(a)).replace(ev + ".", "entry.", 1) if U(sflow.subst(a)).startswith(ev + ".") else U(sflow.subst(a))
+    want = ["mnemonic", "operands", "latency", "port_pressure", "throughput", "uops"]
+    ok = bool(c) and all(bound.get(w) == "entry." + w for w in want) and set(want) <= set(si.params()[1:])
     ctx.check(ok, "R5", "entry fields are passed in the parameter order of set_instruction", se.where(),
-              "set_instruction_entry passes %s to set_instruction%s" % ([U(a) for a in c[0].args] if c else None, si.params()[1:]),
+              "set_instruction_entry passes %s to set_instruction%s" % (bound if c else None, si.params()[1:]),
               se.qname, "argument order")
     d = ctx.func("MachineModel.dump")
     it = [n for n in ast.walk(d.node) if isinstance(n, ast.For) and U(n.iter).replace("'", '"') == 'self._data["instruction_forms"]']
